@@ -1,8 +1,610 @@
-//! C08 — not built yet.
+//! C08 — bulk numeric bodies are bit-identical to the generic encoding and decode exactly.
+//! Stage "inproc" (also run under Miri: this workload reaches beve's unsafe bulk copies and the
+//! &[u8] -> &[T] reinterpretation): per element type, values from bit-pattern classes compared AS BITS;
+//! bulk vs generic encoder bytes, all four encoder x decoder pairs (empty slice included), streaming
+//! writers vs buffered builders, aligned form at every (query length, base misalignment) through the
+//! borrowing route with borrowed/copied classification by the address the handler saw, wrong element
+//! type / wrong format rejected. Stage "net": the same through Server and AsyncServer with the bulk,
+//! aligned and generic client calls.
+
 use crate::common::*;
+use beve::{BeveTypedSlice, Complex};
+use half::{bf16, f16};
+use repe::{BodyFormat, CallContext, ErrorCode, Header, Message, MessageView, QueryFormat, Router};
+use serde::{Serialize, de::DeserializeOwned};
+use serde_json::json;
+use std::sync::{Arc, Mutex};
+
+pub trait Elem: BeveTypedSlice + Serialize + DeserializeOwned + Copy + Send + Sync + 'static {
+    const NAME: &'static str;
+    fn mk(r: &mut Rng) -> Self;
+    fn bits(&self) -> u128;
+}
+
+macro_rules! int_elem {
+    ($t:ty, $name:expr) => {
+        impl Elem for $t {
+            const NAME: &'static str = $name;
+            fn mk(r: &mut Rng) -> Self {
+                match r.below(6) {
+                    0 => <$t>::MIN,
+                    1 => <$t>::MAX,
+                    2 => 0 as $t,
+                    3 => 1 as $t,
+                    4 => (0 as $t).wrapping_sub(1),
+                    _ => r.next_u64() as $t,
+                }
+            }
+            fn bits(&self) -> u128 {
+                *self as u128
+            }
+        }
+    };
+}
+int_elem!(u8, "u8");
+int_elem!(u16, "u16");
+int_elem!(u32, "u32");
+int_elem!(u64, "u64");
+int_elem!(i8, "i8");
+int_elem!(i16, "i16");
+int_elem!(i32, "i32");
+int_elem!(i64, "i64");
+
+fn f64_bits(r: &mut Rng) -> u64 {
+    match r.below(12) {
+        0 => 0x7ff8_0000_0000_0000,                       // quiet NaN
+        1 => 0x7ff0_0000_0000_0001,                       // signalling NaN, minimal payload
+        2 => 0xfff8_dead_beef_0001,                       // negative NaN with payload
+        3 => 0x7ff0_0000_0000_0000,                       // +inf
+        4 => 0xfff0_0000_0000_0000,                       // -inf
+        5 => 0x8000_0000_0000_0000,                       // -0
+        6 => 0,                                           // +0
+        7 => 1,                                           // smallest subnormal
+        8 => 0x000f_ffff_ffff_ffff,                       // largest subnormal
+        9 => 0x7fef_ffff_ffff_ffff,                       // max finite
+        10 => 0x7ff0_0000_0000_0000 | (r.next_u64() >> 12).max(1), // random NaN payload
+        _ => r.next_u64(),
+    }
+}
+fn f32_bits(r: &mut Rng) -> u32 {
+    match r.below(12) {
+        0 => 0x7fc0_0000,
+        1 => 0x7f80_0001,
+        2 => 0xffc0_beef,
+        3 => 0x7f80_0000,
+        4 => 0xff80_0000,
+        5 => 0x8000_0000,
+        6 => 0,
+        7 => 1,
+        8 => 0x007f_ffff,
+        9 => 0x7f7f_ffff,
+        10 => 0x7f80_0000 | ((r.next_u64() as u32) >> 9).max(1),
+        _ => r.next_u64() as u32,
+    }
+}
+fn h16_bits(r: &mut Rng) -> u16 {
+    match r.below(10) {
+        0 => 0x7e00,
+        1 => 0x7c01,
+        2 => 0xfe55,
+        3 => 0x7c00,
+        4 => 0xfc00,
+        5 => 0x8000,
+        6 => 0,
+        7 => 1,
+        8 => 0x7bff,
+        _ => r.next_u64() as u16,
+    }
+}
+impl Elem for f64 {
+    const NAME: &'static str = "f64";
+    fn mk(r: &mut Rng) -> Self {
+        f64::from_bits(f64_bits(r))
+    }
+    fn bits(&self) -> u128 {
+        self.to_bits() as u128
+    }
+}
+impl Elem for f32 {
+    const NAME: &'static str = "f32";
+    fn mk(r: &mut Rng) -> Self {
+        f32::from_bits(f32_bits(r))
+    }
+    fn bits(&self) -> u128 {
+        self.to_bits() as u128
+    }
+}
+impl Elem for f16 {
+    const NAME: &'static str = "f16";
+    fn mk(r: &mut Rng) -> Self {
+        f16::from_bits(h16_bits(r))
+    }
+    fn bits(&self) -> u128 {
+        self.to_bits() as u128
+    }
+}
+impl Elem for bf16 {
+    const NAME: &'static str = "bf16";
+    fn mk(r: &mut Rng) -> Self {
+        bf16::from_bits(h16_bits(r))
+    }
+    fn bits(&self) -> u128 {
+        self.to_bits() as u128
+    }
+}
+
+fn bits_of<T: Elem>(xs: &[T]) -> Vec<u128> {
+    xs.iter().map(|x| x.bits()).collect()
+}
+
+fn pick_len(r: &mut Rng, miri: bool, case: u64) -> usize {
+    if case % 16 == 0 {
+        return 0;
+    }
+    match r.below(10) {
+        0 => 0,
+        1 => 1,
+        2..=6 => r.usize_below(if miri { 12 } else { 70 }),
+        7 => r.usize_below(if miri { 40 } else { 4097 }),
+        8 => *r.pick(&[63usize, 64, 65, 255, 256, 257]) % if miri { 70 } else { 100_000 },
+        _ => {
+            if miri {
+                r.usize_below(20)
+            } else if r.chance(1, 40) {
+                *r.pick(&[65_536usize, 1_000_000])
+            } else {
+                r.usize_below(600)
+            }
+        }
+    }
+}
+
+struct Seen {
+    addr: usize,
+    bits: Vec<u128>,
+}
+
+fn check_type<T: Elem, U: Elem>(rep: &mut Report, r: &mut Rng, case: u64, miri: bool) {
+    let n = pick_len(r, miri, case);
+    let xs: Vec<T> = (0..n).map(|_| T::mk(r)).collect();
+    let want = bits_of(&xs);
+    let ql = if case % 3 == 0 { (case / 3 % 65) as usize } else { r.usize_below(65) };
+    let q: Vec<u8> = (0..ql).map(|i| b'a' + (i % 26) as u8).collect();
+    let desc = json!({"type": T::NAME, "len": n, "query_len": ql, "case": case, "first_bits": want.iter().take(4).map(|b| format!("{b:#x}")).collect::<Vec<_>>()});
+    rep.eval();
+    rep.distinct(&(T::NAME, n.min(9), ql % 8, ql.min(2)));
+    let empty_tag = if n == 0 { "empty" } else { "nonempty" };
+
+    // ---- encoders
+    let bulk = Message::builder().id(case).query_bytes(q.clone()).body_typed_slice(&xs).build();
+    let generic = match Message::builder().id(case).query_bytes(q.clone()).body_beve(&xs) {
+        Ok(b) => b.build(),
+        Err(e) => {
+            rep.violation(format!("C08:generic-encode-failed:{}", T::NAME), e.to_string(), desc);
+            return;
+        }
+    };
+    if bulk.header.body_format != BodyFormat::Beve as u16 {
+        rep.violation("C08:bulk-format-code", format!("body_typed_slice set body_format {}", bulk.header.body_format), desc.clone());
+    }
+    if n > 0 && bulk.body != generic.body {
+        rep.violation(format!("C08:bulk-vs-generic-bytes:{}", T::NAME), format!("{} x{n}: bulk body {} != generic body {}", T::NAME, hex_trunc(&bulk.body, 40), hex_trunc(&generic.body, 40)), desc.clone());
+    }
+    // ---- 2 encoders x 2 decoders
+    let dec = |rep: &mut Report, enc: &str, decn: &str, res: Result<Result<Vec<T>, String>, String>| match res {
+        Ok(Ok(v)) if bits_of(&v) == want => rep.count("cross_decodes_exact", 1),
+        Ok(Ok(v)) => {
+            let at = bits_of(&v).iter().zip(want.iter()).position(|(a, b)| a != b);
+            rep.violation(format!("C08:decode-alters-bits:{enc}->{decn}:{}", T::NAME), format!("{} x{n}: {decn} of the {enc} encoding differs (len {} vs {n}, first differing element {at:?})", T::NAME, v.len()), desc.clone())
+        }
+        Ok(Err(e)) => rep.violation(format!("C08:decode-rejects:{enc}->{decn}:{empty_tag}"), format!("{} x{n}: {decn} rejected the {enc} encoding ({}): {e}", T::NAME, hex_trunc(if enc == "bulk" { &bulk.body } else { &generic.body }, 24)), desc.clone()),
+        Err(p) => rep.violation(format!("C08:panic:{enc}->{decn}:{}", panic_site(&p)), p, desc.clone()),
+    };
+    dec(rep, "bulk", "decode_typed_slice", catching(|| bulk.decode_typed_slice::<T>().map_err(|e| e.to_string())));
+    dec(rep, "generic", "decode_typed_slice", catching(|| generic.decode_typed_slice::<T>().map_err(|e| e.to_string())));
+    dec(rep, "bulk", "beve_body", catching(|| bulk.beve_body::<Vec<T>>().map_err(|e| e.to_string())));
+    dec(rep, "generic", "beve_body", catching(|| generic.beve_body::<Vec<T>>().map_err(|e| e.to_string())));
+
+    // ---- wrong element type / wrong format must be rejected, not reinterpreted
+    if n > 0 && (T::CLASS != U::CLASS || T::BYTE_CODE != U::BYTE_CODE) {
+        match catching(|| bulk.decode_typed_slice::<U>()) {
+            Ok(Err(_)) => rep.count("wrong_type_rejected", 1),
+            Ok(Ok(v)) => rep.violation(format!("C08:wrong-type-reinterpreted:{}-as-{}", T::NAME, U::NAME), format!("a {} array decoded as {} ({} elements)", T::NAME, U::NAME, v.len()), desc.clone()),
+            Err(p) => rep.violation(format!("C08:panic:wrong-type:{}", panic_site(&p)), p, desc.clone()),
+        }
+    }
+    {
+        let mut wrong = bulk.clone();
+        wrong.header.body_format = *r.pick(&[0u16, 2, 3, 77]);
+        match catching(|| wrong.decode_typed_slice::<T>()) {
+            Ok(Err(_)) => rep.count("wrong_format_rejected", 1),
+            Ok(Ok(_)) => rep.violation("C08:wrong-format-accepted", format!("decode_typed_slice accepted body_format {}", wrong.header.body_format), desc.clone()),
+            Err(p) => rep.violation(format!("C08:panic:wrong-format:{}", panic_site(&p)), p, desc.clone()),
+        }
+    }
+
+    // ---- streaming writer vs buffered builder
+    {
+        let mut h = Header::new();
+        h.id = case;
+        h.query_format = r.boundary_u16();
+        h.ec = r.boundary_u32();
+        h.body_length = 12345; // garbage: must be overwritten
+        let mut streamed = vec![];
+        let res = catching(|| repe::write_message_typed_slice(&mut streamed, h, &q, &xs));
+        let mut owned = bulk.clone();
+        owned.header.query_format = h.query_format;
+        owned.header.ec = h.ec;
+        let mut framed = vec![];
+        repe::write_message(&mut framed, &owned).unwrap();
+        match res {
+            Ok(Ok(())) if streamed == framed && owned.clone().into_wire_bytes() == framed => rep.count("streaming_frames_equal", 1),
+            Ok(Ok(())) => rep.violation(format!("C08:streaming-vs-buffered:{}", T::NAME), format!("{} x{n} query {ql}: write_message_typed_slice frame ({} bytes) differs from the buffered frame ({} bytes)", T::NAME, streamed.len(), framed.len()), desc.clone()),
+            Ok(Err(e)) => rep.violation("C08:streaming-writer-error", e.to_string(), desc.clone()),
+            Err(p) => rep.violation(format!("C08:panic:streaming:{}", panic_site(&p)), p, desc.clone()),
+        }
+    }
+
+    // ---- aligned form through the borrowing route at every base misalignment
+    let seen: Arc<Mutex<Option<Seen>>> = Arc::new(Mutex::new(None));
+    let s2 = seen.clone();
+    let router = Router::new().with_typed_slice_ref("/r", move |ys: &[T]| -> Result<Vec<T>, (ErrorCode, String)> {
+        *s2.lock().unwrap() = Some(Seen { addr: ys.as_ptr() as usize, bits: bits_of(ys) });
+        Ok(ys.iter().rev().cloned().collect())
+    });
+    let h = router.get("/r").unwrap();
+    let amsg = Message::builder().id(case).query_bytes(q.clone()).query_format(QueryFormat::JsonPointer).body_aligned_typed_slice(&xs).build();
+    let wire_a = amsg.to_vec();
+    let wire_b = amsg.clone().into_wire_bytes();
+    if wire_a != wire_b {
+        rep.violation("C08:aligned:into_wire_bytes-differs", format!("{} x{n} query {ql}", T::NAME), desc.clone());
+    }
+    // owned decode of the aligned body
+    match catching(|| amsg.decode_typed_slice::<T>()) {
+        Ok(Ok(v)) if bits_of(&v) == want => {}
+        // the docs pair the aligned form with the borrowing route; the owned generic decoder may not accept it
+        Ok(Err(_)) => rep.count("aligned_body_not_decodable_by_plain_decoder", 1),
+        Ok(Ok(_)) => rep.violation(format!("C08:aligned:owned-decode-alters:{}", T::NAME), format!("{} x{n} query {ql}", T::NAME), desc.clone()),
+        Err(p) => rep.violation(format!("C08:panic:aligned-owned:{}", panic_site(&p)), p, desc.clone()),
+    }
+    let align = std::mem::align_of::<T>();
+    let payload_off = wire_a.len() - std::mem::size_of_val(xs.as_slice());
+    let mut arena = vec![0u8; wire_a.len() + 32];
+    let base0 = (16 - (arena.as_ptr() as usize % 16)) % 16;
+    for mis in 0..8usize {
+        let base = base0 + mis;
+        arena[base..base + wire_a.len()].copy_from_slice(&wire_a);
+        let lo = arena.as_ptr() as usize;
+        let hi = lo + arena.len();
+        let view = MessageView::from_slice(&arena[base..base + wire_a.len()]).unwrap();
+        *seen.lock().unwrap() = None;
+        rep.eval();
+        let res = catching(|| h.handle_view(&view, &CallContext::detached("/r")));
+        match res {
+            Ok(Ok(resp)) => {
+                let s = seen.lock().unwrap().take();
+                let Some(s) = s else {
+                    rep.violation(format!("C08:aligned:handler-not-invoked:{}", T::NAME), format!("{} x{n} query {ql} misalign {mis}: response ec={} body {}", T::NAME, resp.header.ec, String::from_utf8_lossy(&resp.body)), desc.clone());
+                    continue;
+                };
+                if s.bits != want {
+                    rep.violation(format!("C08:aligned:elements-differ:{}", T::NAME), format!("{} x{n} query {ql} misalign {mis}: the borrowing route saw different elements", T::NAME), json!({"type": T::NAME, "len": n, "query_len": ql, "misalign": mis}));
+                }
+                let back = resp.decode_typed_slice::<T>().map(|v| bits_of(&v));
+                let mut rev = want.clone();
+                rev.reverse();
+                if resp.header.ec != 0 || back.as_ref().ok() != Some(&rev) {
+                    rep.violation(format!("C08:aligned:response-differs:{}", T::NAME), format!("{} x{n} query {ql} misalign {mis}: ec {} / wrong result", T::NAME, resp.header.ec), desc.clone());
+                }
+                if n > 0 {
+                    let payload_addr = lo + base + payload_off;
+                    let should_borrow = payload_addr % align == 0;
+                    // the whole point of the padded form: a frame landing on an aligned buffer has an aligned payload
+                    if (lo + base) % align == 0 && !should_borrow {
+                        rep.violation("C08:aligned:padding-wrong", format!("{} x{n} query {ql}: frame at an {align}-aligned address but payload offset {payload_off} is not a multiple of {align}", T::NAME), json!({"type": T::NAME, "len": n, "query_len": ql}));
+                    }
+                    let borrowed = s.addr >= lo && s.addr < hi;
+                    rep.count(if borrowed { "aligned_borrowed" } else { "aligned_copied" }, 1);
+                    if borrowed != should_borrow {
+                        rep.violation(
+                            format!("C08:aligned:borrow-classification:{}", if should_borrow { "copied-although-aligned" } else { "borrowed-although-unaligned" }),
+                            format!("{} x{n} query {ql} misalign {mis}: payload address % {align} = {}, handler slice {} the receive buffer", T::NAME, payload_addr % align, if borrowed { "inside" } else { "outside" }),
+                            json!({"type": T::NAME, "len": n, "query_len": ql, "misalign": mis}),
+                        );
+                    }
+                    if borrowed && s.addr != payload_addr {
+                        rep.violation("C08:aligned:borrowed-wrong-offset", format!("borrowed slice starts at +{} but the payload is at +{}", s.addr - lo, payload_addr - lo), desc.clone());
+                    }
+                }
+            }
+            Ok(Err(e)) => rep.violation(format!("C08:aligned:route-error:{}", T::NAME), format!("{} x{n} query {ql} misalign {mis}: {e}", T::NAME), desc.clone()),
+            Err(p) => rep.violation(format!("C08:panic:aligned-route:{}", panic_site(&p)), p, desc.clone()),
+        }
+    }
+    // the borrowing route is a superset: it must accept the regular and the generic encodings too
+    for (name, m) in [("bulk", &bulk), ("generic", &generic)] {
+        let mut m2 = m.clone();
+        m2.header.query_format = QueryFormat::JsonPointer as u16;
+        let w = m2.to_vec();
+        *seen.lock().unwrap() = None;
+        match catching(|| h.handle_view(&MessageView::from_slice(&w).unwrap(), &CallContext::detached("/r"))) {
+            Ok(Ok(resp)) => {
+                let s = seen.lock().unwrap().take();
+                if resp.header.ec != 0 || s.as_ref().map(|s| &s.bits) != Some(&want) {
+                    rep.violation(format!("C08:ref-route-rejects:{name}:{empty_tag}"), format!("{} x{n}: with_typed_slice_ref route given the {name} encoding answered ec {} ({})", T::NAME, resp.header.ec, String::from_utf8_lossy(&resp.body[..resp.body.len().min(80)])), desc.clone());
+                }
+            }
+            Ok(Err(e)) => rep.violation(format!("C08:ref-route-rejects:{name}:{empty_tag}"), format!("{} x{n}: with_typed_slice_ref route given the {name} encoding returned Err({e})", T::NAME), desc.clone()),
+            Err(p) => rep.violation(format!("C08:panic:ref-route:{}", panic_site(&p)), p, desc.clone()),
+        }
+    }
+    // wrong body-format code on the borrowing route: rejected, handler not invoked
+    for m in [&bulk, &amsg] {
+        let mut m2 = (*m).clone();
+        m2.header.query_format = QueryFormat::JsonPointer as u16;
+        m2.header.body_format = *r.pick(&[0u16, 2, 3, 9]);
+        let w = m2.to_vec();
+        *seen.lock().unwrap() = None;
+        let res = catching(|| h.handle_view(&MessageView::from_slice(&w).unwrap(), &CallContext::detached("/r")));
+        let res2 = catching(|| h.handle(&m2));
+        let invoked = seen.lock().unwrap().is_some();
+        let rejected = |r: &Result<Result<Message, repe::RepeError>, String>| matches!(r, Ok(Err(_))) || matches!(r, Ok(Ok(x)) if x.header.ec != 0);
+        if invoked || !rejected(&res) || !rejected(&res2) {
+            rep.violation("C08:ref-route:wrong-format-accepted", format!("{} x{n}: with_typed_slice_ref route accepted a body tagged with format code {} (handler invoked: {invoked})", T::NAME, m2.header.body_format), desc.clone());
+        } else {
+            rep.count("wrong_format_rejected", 1);
+        }
+    }
+    // wrong element type sent to the borrowing route: rejected
+    if n > 0 && (T::CLASS != U::CLASS || T::BYTE_CODE != U::BYTE_CODE) {
+        let other: Vec<U> = (0..n.min(5)).map(|_| U::mk(r)).collect();
+        let m = Message::builder().id(1).query_str("/r").query_format(QueryFormat::JsonPointer).body_aligned_typed_slice(&other).build();
+        let w = m.to_vec();
+        *seen.lock().unwrap() = None;
+        let res = catching(|| h.handle_view(&MessageView::from_slice(&w).unwrap(), &CallContext::detached("/r")));
+        let invoked = seen.lock().unwrap().is_some();
+        let rejected = matches!(&res, Ok(Err(_))) || matches!(&res, Ok(Ok(m)) if m.header.ec != 0);
+        if invoked || !rejected {
+            rep.violation(format!("C08:aligned:wrong-type-reinterpreted:{}-as-{}", U::NAME, T::NAME), format!("an aligned {} array reached a {} borrowing route (handler invoked: {invoked})", U::NAME, T::NAME), desc.clone());
+        }
+    }
+}
+
+fn check_complex<T: Elem>(rep: &mut Report, r: &mut Rng, case: u64, miri: bool)
+where
+    Complex<T>: Serialize + DeserializeOwned,
+{
+    let n = pick_len(r, miri, case).min(5000);
+    let xs: Vec<Complex<T>> = (0..n).map(|_| Complex { re: T::mk(r), im: T::mk(r) }).collect();
+    let want: Vec<(u128, u128)> = xs.iter().map(|c| (c.re.bits(), c.im.bits())).collect();
+    let q = r.bytes(case as usize % 20);
+    let desc = json!({"type": format!("Complex<{}>", T::NAME), "len": n, "case": case});
+    rep.eval();
+    rep.distinct(&("complex", T::NAME, n.min(9)));
+    let bulk = Message::builder().query_bytes(q.clone()).body_complex_slice(&xs).build();
+    let generic = Message::builder().query_bytes(q.clone()).body_beve(&xs).map(|b| b.build());
+    let empty_tag = if n == 0 { "empty" } else { "nonempty" };
+    let cb = |v: &Vec<Complex<T>>| v.iter().map(|c| (c.re.bits(), c.im.bits())).collect::<Vec<_>>();
+    match &generic {
+        Ok(g) => {
+            if n > 0 && g.body != bulk.body {
+                rep.violation(format!("C08:bulk-vs-generic-bytes:complex-{}", T::NAME), format!("Complex<{}> x{n}: bulk {} generic {}", T::NAME, hex_trunc(&bulk.body, 32), hex_trunc(&g.body, 32)), desc.clone());
+            }
+            match catching(|| g.decode_complex_slice::<T>()) {
+                Ok(Ok(v)) if cb(&v) == want => rep.count("cross_decodes_exact", 1),
+                Ok(Ok(_)) => rep.violation(format!("C08:decode-alters-bits:generic->decode_complex_slice:{}", T::NAME), "complex elements differ".to_string(), desc.clone()),
+                Ok(Err(e)) => rep.violation(format!("C08:decode-rejects:generic->decode_complex_slice:{empty_tag}"), format!("Complex<{}> x{n}: {e} (body {})", T::NAME, hex_trunc(&g.body, 24)), desc.clone()),
+                Err(p) => rep.violation(format!("C08:panic:complex:{}", panic_site(&p)), p, desc.clone()),
+            }
+        }
+        Err(e) => rep.violation("C08:generic-encode-failed:complex", e.to_string(), desc.clone()),
+    }
+    match catching(|| bulk.decode_complex_slice::<T>()) {
+        Ok(Ok(v)) if cb(&v) == want => rep.count("cross_decodes_exact", 1),
+        Ok(Ok(_)) => rep.violation(format!("C08:decode-alters-bits:bulk->decode_complex_slice:{}", T::NAME), "complex elements differ".to_string(), desc.clone()),
+        Ok(Err(e)) => rep.violation(format!("C08:decode-rejects:bulk->decode_complex_slice:{empty_tag}"), e.to_string(), desc.clone()),
+        Err(p) => rep.violation(format!("C08:panic:complex:{}", panic_site(&p)), p, desc.clone()),
+    }
+    match catching(|| bulk.beve_body::<Vec<Complex<T>>>()) {
+        Ok(Ok(v)) if cb(&v) == want => rep.count("cross_decodes_exact", 1),
+        Ok(Ok(_)) => rep.violation(format!("C08:decode-alters-bits:bulk->beve_body:complex-{}", T::NAME), "complex elements differ".to_string(), desc.clone()),
+        Ok(Err(e)) => rep.violation(format!("C08:decode-rejects:bulk->beve_body:complex:{empty_tag}"), e.to_string(), desc.clone()),
+        Err(p) => rep.violation(format!("C08:panic:complex:{}", panic_site(&p)), p, desc.clone()),
+    }
+    // streaming writer
+    let mut h = Header::new();
+    h.id = 5;
+    let mut streamed = vec![];
+    let res = catching(|| repe::write_message_complex_slice(&mut streamed, h, &q, &xs));
+    let mut owned = bulk.clone();
+    owned.header.id = 5;
+    let mut framed = vec![];
+    repe::write_message(&mut framed, &owned).unwrap();
+    match res {
+        Ok(Ok(())) if streamed == framed => rep.count("streaming_frames_equal", 1),
+        Ok(Ok(())) => rep.violation(format!("C08:streaming-vs-buffered:complex-{}", T::NAME), format!("Complex<{}> x{n}", T::NAME), desc.clone()),
+        Ok(Err(e)) => rep.violation("C08:streaming-writer-error", e.to_string(), desc.clone()),
+        Err(p) => rep.violation(format!("C08:panic:streaming:{}", panic_site(&p)), p, desc.clone()),
+    }
+    // a complex body is not a plain numeric array of T
+    if n > 0 {
+        match catching(|| bulk.decode_typed_slice::<T>()) {
+            Ok(Err(_)) => rep.count("wrong_type_rejected", 1),
+            Ok(Ok(v)) => rep.violation("C08:wrong-type-reinterpreted:complex-as-scalar", format!("complex array decoded as {} scalars", v.len()), desc.clone()),
+            Err(p) => rep.violation(format!("C08:panic:complex:{}", panic_site(&p)), p, desc.clone()),
+        }
+    }
+}
 
 pub fn run(args: &Args) -> Report {
-    let mut rep = Report::new(args, "c08-stub", "stub");
-    rep.inconclusive("check not implemented");
+    #[cfg(feature = "net")]
+    if args.stage.starts_with("net") {
+        return net::run(args);
+    }
+    let mut rep = Report::new(
+        args,
+        "c08-inproc",
+        "12 element types (u8..u64, i8..i64, f32, f64, f16, bf16) + Complex<f32/f64>; lengths 0..4096 plus 65 536 / 1 000 000; values \
+         from bit-pattern classes (NaN payloads, +-inf, +-0, subnormals, integer extremes) compared as bits; query lengths 0..64 (all \
+         residues mod 8); receive-buffer misalignments 0..7; distinct = (type, min(len,9), query length mod 8, small query)",
+    );
+    let miri = args.stage.starts_with("miri");
+    let n = args.budget(3_000, 120_000);
+    let mut rng = Rng::new(args.seed ^ 0xC08);
+    quiet_panics(true);
+    for case in 0..n {
+        let mut r = rng.fork(case);
+        match case % 14 {
+            0 => check_type::<u8, i8>(&mut rep, &mut r, case, miri),
+            1 => check_type::<u16, f16>(&mut rep, &mut r, case, miri),
+            2 => check_type::<u32, f32>(&mut rep, &mut r, case, miri),
+            3 => check_type::<u64, f64>(&mut rep, &mut r, case, miri),
+            4 => check_type::<i8, u8>(&mut rep, &mut r, case, miri),
+            5 => check_type::<i16, u16>(&mut rep, &mut r, case, miri),
+            6 => check_type::<i32, i64>(&mut rep, &mut r, case, miri),
+            7 => check_type::<i64, u64>(&mut rep, &mut r, case, miri),
+            8 => check_type::<f32, f64>(&mut rep, &mut r, case, miri),
+            9 => check_type::<f64, i64>(&mut rep, &mut r, case, miri),
+            10 => check_type::<f16, bf16>(&mut rep, &mut r, case, miri),
+            11 => check_type::<bf16, f16>(&mut rep, &mut r, case, miri),
+            12 => check_complex::<f32>(&mut rep, &mut r, case, miri),
+            _ => check_complex::<f64>(&mut rep, &mut r, case, miri),
+        }
+        if case < 3 {
+            rep.sample(json!({"case": case, "type_index": case % 14}));
+        }
+    }
+    quiet_panics(false);
+    if rep.get_count("aligned_borrowed") == 0 || rep.get_count("aligned_copied") == 0 {
+        rep.inconclusive("the aligned workload never saw both a borrowed and a copied decode");
+    }
     rep
+}
+
+#[cfg(feature = "net")]
+mod net {
+    use super::*;
+    use repe::{AsyncClient, AsyncServer, Client, Server};
+
+    fn router(log: Arc<Mutex<Vec<(String, usize, bool)>>>) -> Router {
+        let l1 = log.clone();
+        let l2 = log.clone();
+        let l3 = log.clone();
+        Router::new()
+            .with_typed_slice("/slice/f64", move |xs: Vec<f64>| -> Result<Vec<f64>, (ErrorCode, String)> {
+                l1.lock().unwrap().push(("slice".into(), xs.len(), false));
+                Ok(xs.into_iter().rev().collect())
+            })
+            .with_typed_slice_ref("/ref/f64", move |xs: &[f64]| -> Result<Vec<f64>, (ErrorCode, String)> {
+                l2.lock().unwrap().push(("ref".into(), xs.len(), (xs.as_ptr() as usize) % 8 == 0));
+                Ok(xs.iter().rev().cloned().collect())
+            })
+            .with_typed::<Vec<f64>, Vec<f64>, _>("/typed/f64", move |xs: Vec<f64>| -> Result<repe::TypedResponse<Vec<f64>>, (ErrorCode, String)> {
+                l3.lock().unwrap().push(("typed".into(), xs.len(), false));
+                Ok(repe::TypedResponse::beve(xs.into_iter().rev().collect()))
+            })
+            .with_typed_slice("/slice/i32", |xs: Vec<i32>| -> Result<Vec<i32>, (ErrorCode, String)> { Ok(xs.into_iter().rev().collect()) })
+            .with_typed_slice_ref("/ref/i32", |xs: &[i32]| -> Result<Vec<i32>, (ErrorCode, String)> { Ok(xs.iter().rev().cloned().collect()) })
+            .with_typed_slice_ref("/ref/u16", |xs: &[u16]| -> Result<Vec<u16>, (ErrorCode, String)> { Ok(xs.iter().rev().cloned().collect()) })
+    }
+
+    pub fn run(args: &Args) -> Report {
+        let mut rep = Report::new(
+            args,
+            "c08-net",
+            "Server and AsyncServer with with_typed_slice / with_typed_slice_ref / with_typed routes; Client and AsyncClient calls \
+             call_typed_slice, call_typed_slice_aligned, call_typed_beve with f64/i32/u16 vectors (empty included, bit-pattern values); \
+             result must be the exact reversed input, wrong element type must be an error; distinct = (server, route, call kind, min(len,9))",
+        );
+        let log = Arc::new(Mutex::new(vec![]));
+        let rt = tokio::runtime::Builder::new_multi_thread().worker_threads(4).enable_all().build().unwrap();
+        // blocking server
+        let srv = Server::new(router(log.clone()));
+        let l = srv.listen("127.0.0.1:0").unwrap();
+        let addr_b = l.local_addr().unwrap();
+        std::thread::spawn(move || {
+            let _ = srv.serve(l);
+        });
+        // async server
+        let asrv = AsyncServer::new(router(log.clone()));
+        let addr_a = rt.block_on(async {
+            let l = AsyncServer::listen("127.0.0.1:0").await.unwrap();
+            let a = l.local_addr().unwrap();
+            tokio::spawn(async move {
+                let _ = asrv.serve(l).await;
+            });
+            a
+        });
+        let n = args.budget(400, 20_000);
+        let mut rng = Rng::new(args.seed ^ 0xC08E);
+        let bits = |v: &[f64]| v.iter().map(|x| x.to_bits()).collect::<Vec<_>>();
+        for (sname, addr) in [("server", addr_b), ("async_server", addr_a)] {
+            let c = match Client::connect(addr) {
+                Ok(c) => c,
+                Err(e) => {
+                    rep.inconclusive(format!("connect {sname}: {e}"));
+                    continue;
+                }
+            };
+            let ac = match rt.block_on(AsyncClient::connect(addr)) {
+                Ok(c) => c,
+                Err(e) => {
+                    rep.inconclusive(format!("async connect {sname}: {e}"));
+                    continue;
+                }
+            };
+            for case in 0..n {
+                let mut r = rng.fork(case);
+                let len = if case % 9 == 0 { 0 } else { pick_len(&mut r, false, case).min(20_000) };
+                let xs: Vec<f64> = (0..len).map(|_| f64::mk(&mut r)).collect();
+                let mut want = bits(&xs);
+                want.reverse();
+                let route = *r.pick(&["/slice/f64", "/ref/f64", "/typed/f64"]);
+                let kind = *r.pick(&["slice", "aligned", "beve", "a_slice", "a_aligned", "a_beve"]);
+                rep.eval();
+                rep.distinct(&(sname, route, kind, len.min(9)));
+                let res: Result<Vec<f64>, String> = match kind {
+                    "slice" => c.call_typed_slice::<_, f64, f64>(route, &xs).map_err(|e| e.to_string()),
+                    "aligned" => c.call_typed_slice_aligned::<_, f64, f64>(route, &xs).map_err(|e| e.to_string()),
+                    "beve" => c.call_typed_beve::<_, Vec<f64>, Vec<f64>>(route, &xs).map_err(|e| e.to_string()),
+                    "a_slice" => rt.block_on(ac.call_typed_slice::<_, f64, f64>(route, &xs)).map_err(|e| e.to_string()),
+                    "a_aligned" => rt.block_on(ac.call_typed_slice_aligned::<_, f64, f64>(route, &xs)).map_err(|e| e.to_string()),
+                    _ => rt.block_on(ac.call_typed_beve::<_, Vec<f64>, Vec<f64>>(route, &xs)).map_err(|e| e.to_string()),
+                };
+                let aligned_to_nonref = kind.ends_with("aligned") && route != "/ref/f64";
+                let empty_tag = if len == 0 { "empty" } else { "nonempty" };
+                match res {
+                    Ok(v) if !aligned_to_nonref && bits(&v) == want => rep.count("exact_roundtrips", 1),
+                    Ok(v) if aligned_to_nonref => {
+                        // the aligned form pairs only with the borrowing route; if a regular route accepts it the result must still be exact
+                        if bits(&v) != want {
+                            rep.violation("C08:net:aligned-to-regular-route-wrong-result", format!("{sname} {route} {kind} x{len}"), json!({"server": sname, "route": route, "kind": kind, "len": len}));
+                        }
+                    }
+                    Ok(v) => rep.violation(format!("C08:net:result-differs:{route}:{kind}"), format!("{sname} {route} {kind} x{len}: got {} elements, bits differ", v.len()), json!({"server": sname, "route": route, "kind": kind, "len": len})),
+                    Err(_) if aligned_to_nonref => rep.count("aligned_to_regular_route_rejected", 1),
+                    Err(e) => rep.violation(format!("C08:net:call-failed:{route}:{}:{empty_tag}", kind.trim_start_matches("a_")), format!("{sname} {route} {kind} x{len}: {e}"), json!({"server": sname, "route": route, "kind": kind, "len": len})),
+                }
+                if case % 7 == 0 && len > 0 {
+                    // wrong element type: f64 data to an i32 / u16 route
+                    let r2 = c.call_typed_slice::<_, f64, i32>("/slice/i32", &xs);
+                    let r3 = c.call_typed_slice_aligned::<_, f64, u16>("/ref/u16", &xs);
+                    if r2.is_ok() || r3.is_ok() {
+                        rep.violation("C08:net:wrong-type-reinterpreted", format!("{sname}: f64 data accepted by an i32/u16 route"), json!({"server": sname, "len": len}));
+                    } else {
+                        rep.count("wrong_type_rejected", 2);
+                    }
+                    // and the connection still works
+                    let ok = c.call_typed_slice::<_, i32, i32>("/slice/i32", &[1, 2, 3]);
+                    if ok.as_ref().ok() != Some(&vec![3, 2, 1]) {
+                        rep.violation("C08:net:connection-broken-after-rejection", format!("{sname}: follow-up call gave {ok:?}"), json!({"server": sname}));
+                    }
+                }
+            }
+        }
+        let lg = log.lock().unwrap();
+        rep.set("ref_route_invocations", json!(lg.iter().filter(|e| e.0 == "ref").count()));
+        rep.set("ref_route_saw_8_aligned_slice", json!(lg.iter().filter(|e| e.0 == "ref" && e.2).count()));
+        rep
+    }
 }
